@@ -162,8 +162,11 @@ class Check:
             'wall_s': round(wall, 3),
             'violations': n_viol,
         }
-        os.makedirs(os.path.join(VERIF, 'evidence'), exist_ok=True)
-        with open(os.path.join(VERIF, 'evidence', self.prop + '.json'), 'w') as f:
+        # runs against deliberately modified trees (seeded / benign variants: engine/seedcheck.sh, reseed.sh, benigncheck.sh)
+        # set ADLT_VERIF_EVIDENCE_DIR so that the evidence of the real tree is not overwritten by theirs
+        evdir = os.environ.get('ADLT_VERIF_EVIDENCE_DIR') or os.path.join(VERIF, 'evidence')
+        os.makedirs(evdir, exist_ok=True)
+        with open(os.path.join(evdir, self.prop + '.json'), 'w') as f:
             json.dump(ev, f, indent=1)
         return 1 if n_viol else 0
 
